@@ -7,6 +7,7 @@ EXPLANATION = (
     "C-API transaction entry points other than ndb_txn_commit) no call path reaches a durable or globally visible mutation primitive "
     "(page-file write, WAL append/rewrite, publication of runs / labels / node table, label-interner insertion, HNSW insertion); and "
     "ndb_txn_rollback reaches no commit. Whole-program call graph over resolved callees, closed world for trait objects."
+    " C07.4: in WriteTxn::commit no index maintenance is dominated by the Ok arm of the WAL fsync (a failure there would report an error for a transaction recovery replays)."
 )
 
 LABEL_GET_OR_CREATE = "nervusdb_storage::label_interner::LabelInterner::get_or_create"
